@@ -10,20 +10,29 @@ LEVEL_TEXT = ("Lean theorems (Props/C16.lean): the model of NumberLineCli equals
 
 LINE_SHAPES = ["", " ", "PRINT A", " leading blank", "10 PRINT", "7", "0 zero first", "05 X", "123456789012345678901 big", "1", "\t tab", "9x", "rem 20",
                # characters that str.splitlines() treats as line ends but text-mode reading does not
-               "' ---- page \x0c ----", "A\x0bB", "12 x\x1cy", "n\x85m", "u\u2028v", "\x1d", "3\x1e", "p\u2029"]
+               "' ---- page \x0c ----", "A\x0bB", "12 x\x1cy", "n\x85m", "u\u2028v", "\x1d", "3\x1e", "p\u2029",
+               # digits that are not ASCII digits: not part of a line number (Python's \\d and int() would take them)
+               "5\uff10 REM", "1\u0663", "\u0663 x", "2\u00b2", "7\u0967 y"]
 
 
 def model_out(ans):
     return "" if ans == "" else "".join(uncps(x) + "\n" for x in ans.split(";"))
 
 
-def one_case(ctx, res, stream, cfg, texts, use_stdin=False, check_idem=True):
+def one_case(ctx, res, stream, cfg, texts, use_stdin=False, check_idem=True, as_filter=False):
     from moto_nl.nl import NumberLineCli
     start, incr, width = cfg
     st = res.stream(stream)
     d = ctx.fresh_dir()
-    argv = ["-v", str(start), "-i", str(incr), "-w", str(width)]
+    # the options in their short or long spelling
+    argv = ["-v", str(start), "-i", str(incr), "-w", str(width)] if (start + incr) % 2 else ["--starting-line-number", str(start), "--line-increment", str(incr), "--number-width", str(width)]
+    if as_filter:
+        # no file argument at all: the tool is a filter of its standard input
+        texts = texts[:1]
+        use_stdin = True
     for k, t in enumerate(texts):
+        if as_filter:
+            break
         if use_stdin and k == len(texts) - 1:
             argv.append("-")
         else:
@@ -38,7 +47,7 @@ def one_case(ctx, res, stream, cfg, texts, use_stdin=False, check_idem=True):
     req = " ".join(cps(t) for t in texts)
     m, s = drv([f"nl {start} {incr} {width} {req}", f"spec.nl {start} {incr} {width} {req}"])
     mo, so = model_out(m), model_out(s)
-    case = {"start": start, "incr": incr, "width": width, "texts": texts, "stdin": use_stdin}
+    case = {"start": start, "incr": incr, "width": width, "texts": texts, "stdin": use_stdin, "filter": as_filter}
     nontrivial = any(l[:1].isdigit() for t in texts for l in t.splitlines()) and any(not l[:1].isdigit() for t in texts for l in t.splitlines())
     st.see(case, nontrivial=nontrivial)
     st.compared += 1
@@ -95,13 +104,16 @@ def run(ctx, res):
              ((10, 10, 0), ["a\n", "5 b\n", "c\n"]), ((3, 7, 2), [""]), ((10, 10, 3), ["100\nq\n"])]
     for cfg, texts in fixed:
         one_case(ctx, res, "fixed", cfg, texts)
+        one_case(ctx, res, "fixed", cfg, texts, as_filter=True)
+    one_case(ctx, res, "fixed", (10, 5, 0), ["a\x0cb\nu\u2028v\n5\uff10 REM\nnext\n n\x85m \n"], as_filter=True)
     res.sample({"cfg": fixed[0][0], "texts": fixed[0][1]})
     for i in range(ctx.n(600, 5000)):
         cfg = (ctx.rng.choice([1, 2, 10, 100, 999, 10000, ctx.rng.randint(1, 10000)]),
                ctx.rng.choice([1, 5, 10, 10000, ctx.rng.randint(1, 10000)]),
                ctx.rng.choice([0, 1, 2, 3, 4, 5, 8, 12]))
         texts = [gen_text(ctx.rng) for _ in range(ctx.rng.choice([1, 1, 1, 2, 3, 4]))]
-        one_case(ctx, res, "random", cfg, texts, use_stdin=ctx.rng.random() < 0.25)
+        r = ctx.rng.random()
+        one_case(ctx, res, "random", cfg, texts, use_stdin=r < 0.25, as_filter=0.25 <= r < 0.4)
         if i == 3:
             res.sample({"cfg": cfg, "texts": texts})
     # exhaustive small scope: all k-line texts over 6 line shapes x configurations
